@@ -435,6 +435,11 @@ func CheckC07(e *Env) (int, error) {
 		if mode == "real" && i%4 == 0 { // two default 24-word outputs in one process
 			ops = append(ops, plan.Op{K: "new", N: 24, Lang: 2}, plan.Op{K: "new", N: 24, Lang: 2})
 		}
+		if r.Intn(4) == 0 { // process uptime and idle periods (clock seam): simulated time passes before some calls
+			for j := 0; j < r.Range(1, 2); j++ {
+				ops[r.Intn(len(ops))].J = JumpVals[r.Intn(len(JumpVals))]
+			}
+		}
 		hp := histPlan{Source: mode, Identity: true, Ops: ops}
 		if mode == "preinit" {
 			news := 0
@@ -466,6 +471,9 @@ func CheckC07(e *Env) (int, error) {
 		var ops []plan.Op
 		for k := 0; k < 3000; k++ {
 			ops = append(ops, plan.Op{K: "new", N: wordCounts[r.Intn(5)], Lang: r.Intn(ref.NumLang)})
+			if r.Intn(500) == 0 {
+				ops[k].J = JumpVals[r.Intn(len(JumpVals))]
+			}
 		}
 		mode := []string{"preinit", "real"}[i%2]
 		hp := histPlan{Source: mode, Identity: true, Ops: ops}
